@@ -426,15 +426,16 @@ theorem download_script_suffix (status : Nat) (closeOnBad : Bool) (data : Text) 
 /-- faults on the second of two packages (or on any of them): each download that ends with `io.EOF` delivered
 its own package — over one network whose connections are used up in order — given that no stream of the
 script stops early looking like a clean end -/
-theorem fetchPackages_ok_complete (k : Kind) (sz : Reader → Nat) :
-    ∀ (datas : List Text) (script : List Conn), TruncationSignalled script →
-      ∀ p ∈ datas.zip (fetchPackages Cfg.generated Callers.generated k sz datas script),
-        ∀ bs, p.2.1 = Result.ok bs → bs = p.1 := by
-  intro datas
-  induction datas with
+theorem fetchPackages_ok_complete (k : Kind) :
+    ∀ (pkgs : List (Text × (Reader → Nat))) (script : List Conn), TruncationSignalled script →
+      ∀ p ∈ pkgs.zip (fetchPackages Cfg.generated Callers.generated k pkgs script),
+        ∀ bs, p.2.1 = Result.ok bs → bs = p.1.1 := by
+  intro pkgs
+  induction pkgs with
   | nil => intro script _ p hp; simp [fetchPackages] at hp
-  | cons data rest ih =>
+  | cons pkg rest ih =>
     intro script hs p hp
+    obtain ⟨data, sz⟩ := pkg
     simp only [fetchPackages, List.zip_cons_cons, List.mem_cons] at hp
     rcases hp with rfl | hp
     · intro bs hbs
@@ -758,17 +759,13 @@ theorem key_ok_complete_partial (s : Srv) (x : XConn) (rest : List XConn) (sz : 
         · cases hget
         · simp only [Option.some.injEq, Prod.mk.injEq] at hget
           rw [← hget.1]; exact h200
-      obtain ⟨hcl, hb⟩ := doGet_spec hget
-      obtain ⟨_, hfull⟩ := hb hcode
-      obtain ⟨_, hok, _⟩ := drainBody_spec sz (body.rest.length + 1) 0 body [] [] hcl
-      generalize (drainBody sz (body.rest.length + 1) 0 body [] []).2.1 = g at h hok
+      obtain ⟨_, hok, _⟩ := doGet_drain_spec hget hcode sz
+      generalize (drainResp sz body).1 = g at h hok
       cases g with
       | ok bs2 =>
         simp only at h
         cases h
-        obtain ⟨h1, h2⟩ := hok bs rfl
-        simp only [List.nil_append] at h1
-        rw [h1]; exact hfull h2 hev
+        exact hok bs rfl hev
       | err bs2 => simp at h
       | fuel bs2 => simp at h
 
